@@ -3,6 +3,7 @@ package value
 import (
 	"fmt"
 	"sort"
+	"strings"
 
 	"github.com/smarthome-go/homescript/v3/homescript/analyzer/ast"
 	"github.com/smarthome-go/homescript/v3/homescript/errors"
@@ -14,6 +15,10 @@ func DeepCastCatchable(val Value, typ ast.Type, span errors.Span, allowCasts boo
 	res, i := DeepCast(val, typ, span, allowCasts)
 	if i != nil {
 		if err, isErr := (*i).(RuntimeErr); isErr && err.ErrKind == CastErrorKind {
+			if strings.HasPrefix(err.MessageInternal, "at `") {
+				// the message starts with the path of the offending position: "Cast error at `.a[0]`: ..."
+				return nil, NewThrowInterrupt(span, "Cast error "+err.MessageInternal)
+			}
 			return nil, NewThrowInterrupt(span, "Cast error: "+err.MessageInternal)
 		}
 	}
@@ -22,6 +27,20 @@ func DeepCastCatchable(val Value, typ ast.Type, span errors.Span, allowCasts boo
 
 // TODO: set maximum recursion here
 func DeepCast(val Value, typ ast.Type, span errors.Span, allowCasts bool) (*Value, *Interrupt) {
+	return deepCastAt(val, typ, span, allowCasts, "")
+}
+
+// A cast error names the position of the offending value inside of the casted value (`.field`, `[index]`),
+// like the VM's cast errors do.
+func newCastErr(path string, message string, span errors.Span) *Interrupt {
+	if path != "" {
+		message = fmt.Sprintf("at `%s`: %s", path, message)
+	}
+	return NewRuntimeErr(message, CastErrorKind, span)
+}
+
+// `path` describes where `val` sits inside of the value which is being casted.
+func deepCastAt(val Value, typ ast.Type, span errors.Span, allowCasts bool, path string) (*Value, *Interrupt) {
 	// TODO: is this OK?
 	if typ.Kind() == ast.OptionTypeKind {
 		if val.Kind() == OptionValueKind {
@@ -34,14 +53,14 @@ func DeepCast(val Value, typ ast.Type, span errors.Span, allowCasts bool) (*Valu
 			valInner := *valOption.Inner
 			typInner := typOption.Inner
 
-			innerCast, i := DeepCast(valInner, typInner, span, allowCasts)
+			innerCast, i := deepCastAt(valInner, typInner, span, allowCasts, path)
 			if i != nil {
 				return nil, i
 			}
 			return NewValueOption(innerCast), nil
 		}
 		// a `T` may be wrapped into a `?T`, but only if it really is a `T`
-		innerCast, i := DeepCast(val, typ.(ast.OptionType).Inner, span, allowCasts)
+		innerCast, i := deepCastAt(val, typ.(ast.OptionType).Inner, span, allowCasts, path)
 		if i != nil {
 			return nil, i
 		}
@@ -51,9 +70,9 @@ func DeepCast(val Value, typ ast.Type, span errors.Span, allowCasts bool) (*Valu
 	switch val.Kind() {
 	case BoolValueKind:
 		if !allowCasts && typ.Kind() != ast.BoolTypeKind {
-			return nil, NewRuntimeErr(
+			return nil, newCastErr(
+				path,
 				fmt.Sprintf("Incompatible values: a value of type '%s' is not compatible with a value of type '%s'", val.Kind(), typ),
-				CastErrorKind,
 				span,
 			)
 		}
@@ -81,9 +100,9 @@ func DeepCast(val Value, typ ast.Type, span errors.Span, allowCasts bool) (*Valu
 		}
 	case IntValueKind:
 		if !allowCasts && typ.Kind() != ast.IntTypeKind {
-			return nil, NewRuntimeErr(
+			return nil, newCastErr(
+				path,
 				fmt.Sprintf("Incompatible values: a value of type '%s' is not compatible with a value of type '%s'", val.Kind(), typ),
-				CastErrorKind,
 				span,
 			)
 		}
@@ -106,9 +125,9 @@ func DeepCast(val Value, typ ast.Type, span errors.Span, allowCasts bool) (*Valu
 		}
 	case FloatValueKind:
 		if !allowCasts && typ.Kind() != ast.FloatTypeKind {
-			return nil, NewRuntimeErr(
+			return nil, newCastErr(
+				path,
 				fmt.Sprintf("Incompatible values: a value of type '%s' is not compatible with a value of type '%s'", val.Kind(), typ),
-				CastErrorKind,
 				span,
 			)
 		}
@@ -131,9 +150,9 @@ func DeepCast(val Value, typ ast.Type, span errors.Span, allowCasts bool) (*Valu
 		}
 	case ObjectValueKind:
 		if !allowCasts && typ.Kind() != ast.ObjectTypeKind && typ.Kind() != ast.AnyObjectTypeKind {
-			return nil, NewRuntimeErr(
+			return nil, newCastErr(
+				path,
 				fmt.Sprintf("Incompatible values: a value of type '%s' is not compatible with a value of type '%s'", val.Kind(), typ),
-				CastErrorKind,
 				span,
 			)
 		}
@@ -161,7 +180,7 @@ func DeepCast(val Value, typ ast.Type, span errors.Span, allowCasts bool) (*Valu
 				found := false
 				for _, otherField := range objType.ObjFields {
 					if key == otherField.FieldName.Ident() {
-						newField, i := DeepCast(*field, otherField.Type, span, allowCasts)
+						newField, i := deepCastAt(*field, otherField.Type, span, allowCasts, path+"."+key)
 						if i != nil {
 							return nil, i
 						}
@@ -171,9 +190,9 @@ func DeepCast(val Value, typ ast.Type, span errors.Span, allowCasts bool) (*Valu
 					}
 				}
 				if !found {
-					return nil, NewRuntimeErr(
+					return nil, newCastErr(
+						path,
 						fmt.Sprintf("Incompatible values: found unexpected field '%s'", key),
-						CastErrorKind,
 						span,
 					)
 				}
@@ -182,9 +201,9 @@ func DeepCast(val Value, typ ast.Type, span errors.Span, allowCasts bool) (*Valu
 			for _, field := range objType.ObjFields {
 				_, found := objVal.FieldsInternal[field.FieldName.Ident()]
 				if !found {
-					return nil, NewRuntimeErr(
+					return nil, newCastErr(
+						path,
 						fmt.Sprintf("Incompatible values: field '%s' was expected but not found", field.FieldName.Ident()),
-						CastErrorKind,
 						span,
 					)
 				}
@@ -192,9 +211,9 @@ func DeepCast(val Value, typ ast.Type, span errors.Span, allowCasts bool) (*Valu
 
 			return NewValueObject(outputFields), nil
 		default:
-			return nil, NewRuntimeErr(
+			return nil, newCastErr(
+				path,
 				fmt.Sprintf("Incompatible values: a value of type '%s' is not compatible with a value of type '%s'", val.Kind(), typ),
-				CastErrorKind,
 				span,
 			)
 		}
@@ -205,8 +224,8 @@ func DeepCast(val Value, typ ast.Type, span errors.Span, allowCasts bool) (*Valu
 			asType := typ.(ast.ListType)
 
 			outputList := make([]*Value, 0)
-			for _, item := range *listVal.Values {
-				newVal, i := DeepCast(*item, asType.Inner, span, allowCasts)
+			for idx, item := range *listVal.Values {
+				newVal, i := deepCastAt(*item, asType.Inner, span, allowCasts, fmt.Sprintf("%s[%d]", path, idx))
 				if i != nil {
 					return nil, i
 				}
@@ -217,18 +236,18 @@ func DeepCast(val Value, typ ast.Type, span errors.Span, allowCasts bool) (*Valu
 		}
 	case AnyObjectValueKind:
 		if typ.Kind() != ast.AnyObjectTypeKind {
-			return nil, NewRuntimeErr(
+			return nil, newCastErr(
+				path,
 				fmt.Sprintf("Incompatible values: a value of type '%s' is not compatible with a value of type '%s'", val.Kind(), typ),
-				CastErrorKind,
 				span,
 			)
 		}
 		return &val, nil
 	case OptionValueKind:
 		if typ.Kind() != ast.OptionTypeKind {
-			return nil, NewRuntimeErr(
+			return nil, newCastErr(
+				path,
 				fmt.Sprintf("Incompatible values: a value of type '%s' is not compatible with a value of type '%s'", val.Kind(), typ),
-				CastErrorKind,
 				span,
 			)
 		}
@@ -242,7 +261,7 @@ func DeepCast(val Value, typ ast.Type, span errors.Span, allowCasts bool) (*Valu
 		}
 
 		// otherwise, the inner type must also match
-		return DeepCast(*opt.Inner, optType, span, allowCasts)
+		return deepCastAt(*opt.Inner, optType, span, allowCasts, path)
 	case ClosureValueKind, FunctionValueKind, BuiltinFunctionValueKind:
 		// Reachable: the analyzer only rejects `as fn(..)` itself, not function types below an option,
 		// list or object type. Like on the VM, a function value never passes a runtime cast.
@@ -264,9 +283,9 @@ func DeepCast(val Value, typ ast.Type, span errors.Span, allowCasts bool) (*Valu
 			return &val, nil
 		}
 	}
-	return nil, NewRuntimeErr(
+	return nil, newCastErr(
+		path,
 		fmt.Sprintf("Incompatible values: a value of type '%s' is not compatible with a value of type '%s'", val.Kind(), typ),
-		CastErrorKind,
 		span,
 	)
 }
